@@ -29,6 +29,9 @@ from harness import common
 
 CHILD = Path(__file__).resolve().parent / "c18_child.py"
 PLANS = [("S", 10), ("F3", 2), ("W4", 2), ("N2,5", 2), ("N3,2", 1), ("O", 2), ("K9", 2), ("K15", 1), ("U2,3", 3)]
+# jobs of several commands, one plan per command (the runner stops at the first failing one)
+MULTI = [["F3", "S"], ["O", "S"], ["S", "F3"], ["N2,5", "S"], ["K9", "S"], ["O", "O", "S"], ["W4", "S"], ["U2,3", "S"], ["S", "O"],
+         ["O", "F3"], ["O", "N2,5", "S"], ["S", "S"]]
 # everything a library key may be (bytes up to 255 long): dots, several dots, leading/trailing dots, stems and prefixes of
 # each other, suffixes the pipeline uses itself, spaces, non-ASCII.  (`/`, NUL, `:`, `,`, `|` are left out: the harness
 # uses job names as file names and `:,|` as separators of its own payload format)
@@ -54,10 +57,17 @@ def gen_history(rng, quick, mode=None):
         fam = [k for k in pool if k.startswith(("lig", "cat_7", "a.b", "m1") if mode == "single" else ("e",))]
         pool = fam + [k for k in pool if k not in fam]
     items = [{"key": k, "subs": None if mode == "single" else rng.range(1, 3)} for k in pool[:n]]
+    # the shape of the prepared inputs: where the result comes from and how the optional fields are spelled
+    shape = rng.weighted([("file", 3), ("stdout-none", 2), ("stdout-empty", 1)])
     plans = {}
     for it in items:
         for j in job_names(it):
-            p = rng.weighted(PLANS)
+            if rng.chance(2, 5):      # a job of several commands: compute / collect steps, tails that succeed after a failure
+                p = ";".join(rng.choice(MULTI))
+            else:
+                p = rng.weighted(PLANS)
+                if p == "O" and shape != "file":
+                    p = "S"          # (without a requested file "exit 0 and nothing written" is a plain success with an empty result)
             if p != "S":
                 plans[j] = p
     pre = []
@@ -75,7 +85,8 @@ def gen_history(rng, quick, mode=None):
         if i > 0 and rng.chance(1, 3 if mode == "single" else 6):
             run["reset_dest"] = True       # a new, empty destination with the old cache directory
         runs.append(run)
-    return {"section": "history", "mode": mode, "items": items, "plans": plans, "pre_dest": pre, "runs": runs, "n_workers": 4}
+    return {"section": "history", "mode": mode, "items": items, "plans": plans, "pre_dest": pre, "runs": runs, "n_workers": 4,
+            "shape": shape, "envars": rng.choice(["none", "empty", "some"]), "files": rng.choice(["none", "empty", "xyz"])}
 
 
 def run_child(ctx, scen, idx):
@@ -104,7 +115,7 @@ def run_child(ctx, scen, idx):
 def model_line(scen) -> str:
     items = ",".join(f"{hx(it['key'])}:{'-' if it['subs'] is None else it['subs']}" for it in scen["items"])
     pre = ",".join(f"{hx(p['key'])}={hx(p['marker'])}" for p in scen["pre_dest"]) or "-"
-    plans = ",".join(f"{hx(j)}={p.replace(',', '/')}" for j, p in scen["plans"].items()) or "-"
+    plans = ",".join(f"{hx(j)}={p.replace(',', '/').replace(';', '+')}" for j, p in scen["plans"].items()) or "-"
     runs = ";".join(f"{r['tag']}:{1 if r.get('strict', True) else 0}:{1 if r.get('reset_dest') else 0}" for r in scen["runs"])
     return f"hist r {items} {pre} {plans} {runs}"
 
@@ -124,15 +135,26 @@ def observed_line(scen, res) -> str:
     return " | ".join(out)
 
 
-def truly_succeeded(plan: str, attempt: int) -> bool:
-    """ground truth from the scripted plan: the command exited 0 and wrote the requested file"""
+def command_outcome(plan: str, attempt: int):
+    """(exited 0, wrote the result) of one command, from its scripted plan"""
     if plan == "S":
-        return True
+        return True, True
+    if plan == "O":
+        return True, False
     if plan.startswith("N"):
-        return attempt >= int(plan[1:].split(",")[0])
+        ok = attempt >= int(plan[1:].split(",")[0])
+        return ok, ok
     if plan.startswith("U"):
-        return attempt < int(plan[1:].split(",")[0])
-    return False        # F<c>, W<c>, K<signal>, O
+        ok = attempt < int(plan[1:].split(",")[0])
+        return ok, ok
+    return False, plan[0] in "WK"        # F<c>; W<c>, K<signal> write first
+
+
+def truly_succeeded(plan: str, attempt: int) -> bool:
+    """ground truth from the scripted plan (`PLAN;PLAN;…`, one per command): every command of the job exited 0 on that
+    attempt and the result was produced"""
+    outs = [command_outcome(p, attempt) for p in plan.split(";")]
+    return all(ok for ok, _ in outs) and any(w for _, w in outs)
 
 
 def oracle(ctx, scen, res):
@@ -243,7 +265,9 @@ def run(ctx):
     ctx.rule = ("histories of 2..4 jobmap runs over 3..5 source items whose keys are drawn from a pool of awkward library keys (dots, several "
                 "dots, leading/trailing dots, stems/prefixes of each other, `.out`/`.inp` endings, spaces, non-ASCII); single jobs (MoleculeLibrary) or vectorised jobs with 1..3 "
                 "sub-jobs per item (ConformerLibrary); per-job plans S / F3 / W4 (file written, then exit 4) / K9, K15 (file written, then killed by that signal) / N2,5 / N3,2 (succeed from "
-                "the n-th attempt) / O (return file omitted); destinations pre-populated with source keys and destination-only keys; "
+                "the n-th attempt) / O (return file omitted); 2 of 5 jobs have 2..3 commands with one plan each (compute + tolerant collect step, "
+                "failure followed by commands that would succeed, …); job shapes: result in a returned file or on stdout with return_files None / (), "
+                "envars None / {} / set, files None / {} / present; destinations pre-populated with source keys and destination-only keys; "
                 "argument tag changed between runs with probability 1/4, non-strict hash check 1/8, the destination replaced by a new empty "
                 "one (cache directory kept) before a later run with probability 1/3 (single) / 1/6 (vectorised). Non-trivial: some job does not "
                 "simply succeed, or the destination is pre-populated, or the arguments change. Distinct by canonical history.")
@@ -255,7 +279,7 @@ def run(ctx):
     ]
     ctx.proof(props=["Molli.Props.C18"], gen=[])
     corpus = [c for c in load_corpus() if c.get("section") == "history"]
-    n = 12 if ctx.quick() else 120
+    n = 10 if ctx.quick() else 120
     scens = corpus + [gen_history(ctx.rng, ctx.quick()) for _ in range(n)]
     workers = 6 if ctx.quick() else 8
     results = [None] * len(scens)
@@ -273,7 +297,10 @@ def run(ctx):
         ctx.count(f"history-runs={len(s['runs'])}")
         ctx.count(f"history-items={len(s['items'])}")
         for p in s["plans"].values():
-            ctx.count(f"plan:{p}")
+            ctx.count(f"plan:{p}" if ";" not in p else "plan:multi-command")
+            if ";" in p:
+                ctx.count("plan-multi:" + ("fails-then-later-command-would-succeed" if not command_outcome(p.split(";")[0], 1)[0] and p.split(";")[-1] == "S" else "other"))
+        ctx.count(f"job-shape:{s.get('shape', 'file')}/envars-{s.get('envars', 'none')}/files-{s.get('files', 'xyz')}")
         if any(p["key"] == "zz_only" or p["key"] not in {it['key'] for it in s['items']} for p in s["pre_dest"]):
             ctx.count("history-destination-only-key")
         if len({r["tag"] for r in s["runs"]}) > 1:
